@@ -279,3 +279,22 @@ fn d10_empty_idat_chunk_in_the_middle() {
         roundtrip_container(&f);
     }
 }
+
+/// D11 (found by C01/A9, consumed-length discipline): bytes between the last DEFLATE block and the Adler-32 of the zlib
+/// stream inside an IDAT run.  The decoder stops after the final block and ignores them, the IDAT arm of the scanner takes the
+/// extent of the chunk from the IDAT chunk lengths and never looks at compressed_size: expand Ok, recreate Err.
+#[test]
+fn d11_bytes_between_last_block_and_adler32() {
+    let data: Vec<u8> = (0..1500u32).map(|i| (i * 29 + 11) as u8).collect();
+    for junk in [1usize, 3, 40] {
+        let mut z = vec![0x78u8, 0x01];
+        z.extend(stored_deflate(&data));
+        z.extend(std::iter::repeat(0xA5u8).take(junk));
+        z.extend_from_slice(&[1, 2, 3, 4]); // stands in for the adler32 (never verified)
+        let mut f = vec![0x89, b'P', b'N', b'G', 0x0d, 0x0a, 0x1a, 0x0a];
+        f.extend(png_chunk(b"IHDR", &[0, 0, 0, 32, 0, 0, 0, 32, 8, 2, 0, 0, 0]));
+        f.extend(png_chunk(b"IDAT", &z));
+        f.extend(png_chunk(b"IEND", &[]));
+        roundtrip_container(&f);
+    }
+}
